@@ -16,8 +16,8 @@ type c21Bundle struct {
 	Name, SrcPath, SrcRepo, SrcLabel, SrcBundle, DestPath, DestRepo, DestMsg, DestLabel, DestBundleID string
 }
 type c21DB struct {
-	Name                                                                             string
-	Port                                                                             int
+	Name                                                                     string
+	Port                                                                     int
 	DestRepo, DestMsg, DestLabel, DestBundleID, SrcRepo, SrcLabel, SrcBundle string
 }
 type c21Case struct {
